@@ -201,8 +201,8 @@ func (s *TFIDFSearcher) Search(query string, limit int) []TFIDFResult {
 		return results[i].Similarity > results[j].Similarity
 	})
 
-	// Apply limit
-	if len(results) > limit {
+	// Apply limit (callers pass limit*k, which can overflow to a negative number: no limit then)
+	if limit >= 0 && len(results) > limit {
 		results = results[:limit]
 	}
 
